@@ -638,3 +638,56 @@ Theorem C08_kernel_aggregate_decreasing_example :
              VArrF out'; VArrI [0]]).
 Proof. exact @KernelDutils.kernel_aggregate_decreasing_example. Qed.
 Print Assumptions C08_kernel_aggregate_decreasing_example.
+
+(* ================================================================== *)
+(* 4. the calendar the month blocks are cut with: the two tables of c_dateutils.c
+   (days_in_month[] regenerated in Gen/ConstsC08.v; day_of_year[] = the function the
+   regenerated c_dateutils_dayofyear computes, Proofs/ChkData.v) agree with each other
+   and with the day stepping kernel (c_add1day = what the regenerated c_dateutils_add1day
+   computes).  Proofs/CalendarDoy.v *)
+From Hy Require Proofs.ChkData Proofs.CalendarDoy.
+
+(* day_of_year[] is the running sum of days_in_month[] *)
+Theorem C08_doy_is_prefix_sum (m : nat) :
+  (1 <= m <= 12)%nat -> nth m ChkData.DAY_OF_YEAR 0 = CalendarDoy.prefix_days (m - 1).
+Proof. exact (CalendarDoy.doy_is_prefix_sum m). Qed.
+Print Assumptions C08_doy_is_prefix_sum.
+
+Theorem C08_doy_range y m d : CalendarDoy.valid_date y m d ->
+  1 <= ChkData.day_of_year m d <= 365 /\
+  1 <= CalendarDoy.doy y m d <= (if is_leap y then 366 else 365).
+Proof. exact (CalendarDoy.doy_range y m d). Qed.
+Print Assumptions C08_doy_range.
+
+(* one day step from any valid date: valid again, one day later in the same year or
+   1 January of the next year from the last day *)
+Theorem C08_add1day_advances_doy y m d : CalendarDoy.valid_date y m d ->
+  exists y' m' d', c_add1day (y, m, d) = Some (y', m', d') /\ CalendarDoy.valid_date y' m' d' /\
+    ((y' = y /\ CalendarDoy.doy y m' d' = CalendarDoy.doy y m d + 1) \/
+     (y' = y + 1 /\ m' = 1 /\ d' = 1 /\
+      CalendarDoy.doy y m d = (if is_leap y then 366 else 365))).
+Proof. exact (CalendarDoy.add1day_doy_leap y m d). Qed.
+Print Assumptions C08_add1day_advances_doy.
+
+(* every year, of any sign or size: n steps from 1 January reach day n + 1, and the
+   year is over after exactly 365 or 366 steps *)
+Theorem C08_days_from_jan1 y (n : nat) :
+  Z.of_nat n < (if is_leap y then 366 else 365) ->
+  exists m d, CalendarDoy.add_days n (y, 1, 1) = Some (y, m, d) /\ CalendarDoy.valid_date y m d /\
+              CalendarDoy.doy y m d = Z.of_nat n + 1.
+Proof. exact (CalendarDoy.days_from_jan1_doy y n). Qed.
+Print Assumptions C08_days_from_jan1.
+
+Theorem C08_year_has_its_length y :
+  CalendarDoy.add_days (Z.to_nat (if is_leap y then 366 else 365)) (y, 1, 1) = Some (y + 1, 1, 1).
+Proof. exact (CalendarDoy.year_has_its_length y). Qed.
+Print Assumptions C08_year_has_its_length.
+
+(* non-vacuity *)
+Example C08_calendar_examples :
+  CalendarDoy.add_days 59 (2024, 1, 1) = Some (2024, 2, 29) /\
+  CalendarDoy.add_days 59 (2023, 1, 1) = Some (2023, 3, 1) /\
+  CalendarDoy.add_days 365 (2023, 1, 1) = Some (2024, 1, 1) /\
+  CalendarDoy.add_days 365 (2024, 1, 1) = Some (2024, 12, 31).
+Proof. exact CalendarDoy.ex_steps. Qed.
+Print Assumptions C08_calendar_examples.
